@@ -117,7 +117,7 @@ theorem dslangmuir_pressure_loading (nm1 K1 nm2 K2 p : ℝ) (hnm1 : 0 < nm1) (hK
     positivity
   unfold DSLangmuir_pressure nanToZero
   simp only []
-  apply PgVerif.Quad.root_plus' ((nm1 + nm2 - n) * K1 * K2) _ (-n) p (-n / ((nm1 + nm2 - n) * K1 * K2 * p)) hxpos.ne'
+  apply PgVerif.Quad.stable_plus' ((nm1 + nm2 - n) * K1 * K2) _ n p (-n / ((nm1 + nm2 - n) * K1 * K2 * p)) hxpos.ne'
   · have hs : nm1 + nm2 - n ≠ 0 := by linarith
     field_simp
     nlinarith [hrel]
@@ -130,30 +130,31 @@ theorem dslangmuir_pressure_loading (nm1 K1 nm2 K2 p : ℝ) (hnm1 : 0 < nm1) (hK
       linarith
     · intro hneg; linarith
 
-/-- at loading 0 the quadratic formula is a genuine `0 / (2 x)` with `2 x ≠ 0` (no `0/0`, no NaN) -/
+/-- at loading 0 the branch `y = nm1 K1 + nm2 K2 > 0` is taken: a genuine `(2 · 0) / (2 y)` with a non-zero denominator (no `0/0`, no NaN) -/
 private lemma dslangmuir_pressure_zero_point (nm1 K1 nm2 K2 : ℝ) (hnm1 : 0 < nm1) (hK1 : 0 < K1) (hnm2 : 0 < nm2)
     (hK2 : 0 < K2) :
     let x := (nm1 + nm2 - 0) * K1 * K2
     let y := nm1 * K1 + nm2 * K2 - 0 * (K1 + K2)
-    (-y + Real.sqrt (y ^ 2 - 4 * x * (-0)) = 0) ∧ 2 * x ≠ 0 := by
+    y > 0 ∧ y + Real.sqrt (y ^ 2 - 4 * x * (-0)) ≠ 0 := by
   simp only []
-  constructor
-  · have : (nm1 * K1 + nm2 * K2 - 0 * (K1 + K2)) ^ 2 - 4 * ((nm1 + nm2 - 0) * K1 * K2) * (-0)
-        = (nm1 * K1 + nm2 * K2) ^ 2 := by ring
-    rw [this, Real.sqrt_sq (by positivity)]; ring
-  · have : 0 < 2 * ((nm1 + nm2 - 0) * K1 * K2) := by
-      have : 0 < nm1 + nm2 - 0 := by linarith
-      positivity
-    exact this.ne'
+  have hy : nm1 * K1 + nm2 * K2 - 0 * (K1 + K2) > 0 := by
+    have := mul_pos hnm1 hK1
+    have := mul_pos hnm2 hK2
+    show 0 < nm1 * K1 + nm2 * K2 - 0 * (K1 + K2)
+    linarith
+  have hs := Real.sqrt_nonneg ((nm1 * K1 + nm2 * K2 - 0 * (K1 + K2)) ^ 2 - 4 * ((nm1 + nm2 - 0) * K1 * K2) * (-0))
+  refine ⟨hy, ?_⟩
+  have : 0 < nm1 * K1 + nm2 * K2 - 0 * (K1 + K2) := hy
+  linarith
 
-/-- pressure(0) = 0.  The denominator `2 (nm1+nm2) K1 K2` is not zero here: the numerator `-y + √(y²)` vanishes
-because `y = nm1 K1 + nm2 K2 > 0` (this needs the parameters positive; it is not an instance of `x / 0 = 0`). -/
+/-- pressure(0) = 0.  The denominator `2 (nm1 K1 + nm2 K2)` is not zero here (this needs the parameters positive; it is not an
+instance of `x / 0 = 0`). -/
 theorem dslangmuir_pressure_zero (nm1 K1 nm2 K2 : ℝ) (hnm1 : 0 < nm1) (hK1 : 0 < K1) (hnm2 : 0 < nm2)
     (hK2 : 0 < K2) : DSLangmuir_pressure nm1 K1 nm2 K2 0 = 0 := by
-  obtain ⟨hnum, _hden⟩ := dslangmuir_pressure_zero_point nm1 K1 nm2 K2 hnm1 hK1 hnm2 hK2
+  obtain ⟨hy, _hden⟩ := dslangmuir_pressure_zero_point nm1 K1 nm2 K2 hnm1 hK1 hnm2 hK2
   unfold DSLangmuir_pressure nanToZero
-  simp only [] at hnum ⊢
-  rw [hnum, zero_div]
+  simp only [] at hy ⊢
+  rw [if_pos hy, mul_zero, zero_div]
 
 /-! ### TSLangmuir -/
 
